@@ -116,10 +116,13 @@ pub struct InvResult
     pub thread_panics : Vec<(u16, String)>,
     pub detached_at_exit : Vec<u16>,
     pub abort : Option<Abort>,
+    /* simulated clock ticks that passed during the invocation */
+    pub clock_ticks : u64,
 }
 
 pub fn invoke(world : &World, is_build : bool, goal : Option<String>, rulefiles : Vec<String>, sched : SchedSpec) -> InvResult
 {
+    let clock_before = world.snapshot().1;
     world.tick();
     let sys = world.system();
     let mut printer = RecPrinter::new();
@@ -165,6 +168,7 @@ pub fn invoke(world : &World, is_build : bool, goal : Option<String>, rulefiles 
         thread_panics : out.thread_panics,
         detached_at_exit : out.detached_at_exit,
         abort : out.abort,
+        clock_ticks : world.snapshot().1 - clock_before,
     }
 }
 
@@ -337,6 +341,27 @@ impl Inv
         Some(v)
     }
 
+    /* both error lists with ungenerated targets named by rule (see oracle_c04) */
+    pub fn errors_as_predicted(&self) -> bool
+    {
+        let owner = model::target_owner(&self.rules).unwrap_or(BTreeMap::new());
+        let norm = |v : Vec<ErrClass>| -> Vec<ErrClass>
+        {
+            let mut v : Vec<ErrClass> = v.into_iter().map(|e| match e
+            {
+                ErrClass::TargetNotGenerated(t) => ErrClass::TargetNotGenerated(match owner.get(&t) { Some(i) => format!("<a target of rule {}>", i), None => t }),
+                other => other,
+            }).collect();
+            v.sort();
+            v
+        };
+        match (self.predicted_errors(), self.actual_errors())
+        {
+            (Some(p), Some(a)) => norm(p) == norm(a),
+            _ => false,
+        }
+    }
+
     pub fn actual_errors(&self) -> Option<Vec<ErrClass>>
     {
         match &self.res.verdict
@@ -374,6 +399,8 @@ pub struct Runner
        naming is the protocol it tests); without it the harness does not know which rule lost its
        memory when a single history file disappears, and forgets everything (sound for C02). */
     pub namer : Option<fn(&Identity) -> String>,
+    /* current notation of the rules files (starts as the case says, changed by Op::Restyle) */
+    pub bundled : bool,
 }
 
 fn file_reader<'a>(disk : &'a Disk) -> impl Fn(&str) -> Option<Vec<u8>> + 'a
@@ -407,6 +434,7 @@ impl Runner
             failed_last : vec![],
             invocations : 0,
             namer : None,
+            bundled : case.bundled(),
         };
         r.set_rules(&case.rules.clone());
         r
@@ -422,7 +450,7 @@ impl Runner
                 self.ever_targets.insert(t.clone());
             }
         }
-        let texts = split_rules(rules, self.case.rule_files);
+        let texts = split_rules(rules, (self.case.rule_files % 10) + if self.bundled { 10 } else { 0 });
         for (path, text) in self.case.rulefile_paths().iter().zip(texts.iter())
         {
             self.world.user_write(path, text.as_bytes());
@@ -530,6 +558,16 @@ impl Runner
                     },
                     DirPart::Table => self.world.user_delete(&table_path()),
                 }
+                self.user_op_happened();
+                None
+            },
+            Op::Restyle{ bundled } =>
+            {
+                self.bundled = bundled;
+                let rules = self.rules.clone();
+                self.set_rules(&rules);
+                // same rules, other notation: not a change of any rule (cf. C13/C14), so the harness
+                // keeps its records; it is a user edit of a file, though
                 self.user_op_happened();
                 None
             },
@@ -742,7 +780,21 @@ pub fn oracle_c04(inv : &Inv, failed_last : &[Identity]) -> Vec<Violation>
     }
     let m = match &inv.model { Ok(m) => m, Err(_) => return out };
     let predicted = inv.predicted_errors().unwrap();
-    match inv.actual_errors()
+    let normalise = |v : Vec<ErrClass>| -> Vec<ErrClass>
+    {
+        // "naming the ... ungenerated target": when a rule leaves several targets ungenerated any
+        // of them may be named; compare by rule
+        let owner = model::target_owner(&inv.rules).unwrap_or(BTreeMap::new());
+        let mut v : Vec<ErrClass> = v.into_iter().map(|e| match e
+        {
+            ErrClass::TargetNotGenerated(t) => ErrClass::TargetNotGenerated(match owner.get(&t) { Some(i) => format!("<a target of rule {}>", i), None => t }),
+            other => other,
+        }).collect();
+        v.sort();
+        v
+    };
+    let predicted = normalise(predicted);
+    match inv.actual_errors().map(normalise)
     {
         None =>
         {
@@ -830,21 +882,9 @@ pub fn oracle_c07(inv : &Inv) -> Vec<Violation>
 {
     let mut out = vec![];
     audit_cache(&inv.after, &format!("op {}", inv.op_index), &mut out);
-    for e in inv.res.events.iter()
-    {
-        if let Ev::Fs{ op : FsOp::Rename, origin : Origin::Ruler, path, path2 : Some(to), ok : true, data : Some(d), .. } = &e.kind
-        {
-            if in_cache(to)
-            {
-                let name = &to[cache_dir().len() + 1..];
-                if name != cache_name_of(d)
-                {
-                    out.push(vio("C07", "C07:entered-under-wrong-name".to_string(),
-                        format!("op {}: {} moved into the cache as {} but its bytes {} hash to {}", inv.op_index, path, name, show_bytes(d), cache_name_of(d))));
-                }
-            }
-        }
-    }
+    // (Files entering the cache under a name that is not their hash *during* an invocation are not
+    //  a violation of the statement, which speaks of quiescent points and — in C11 — of crash
+    //  points: an implementation may stage a file under a temporary name.  See probe_c07_staging.)
     // consequence: a recovered target equals the recorded (= reference) output
     if inv.is_build
     {
@@ -878,6 +918,17 @@ pub fn oracle_c07(inv : &Inv) -> Vec<Violation>
         }
     }
     out
+}
+
+/* probe: renames into the cache whose destination name is not the hash of the moved bytes */
+pub fn probe_c07_staging(inv : &Inv) -> usize
+{
+    inv.res.events.iter().filter(|e| match &e.kind
+    {
+        Ev::Fs{ op : FsOp::Rename, origin : Origin::Ruler, path2 : Some(to), ok : true, data : Some(d), .. } =>
+            in_cache(to) && to[cache_dir().len() + 1..] != cache_name_of(d),
+        _ => false,
+    }).count()
 }
 
 pub fn audit_cache(disk : &Disk, whence : &str, out : &mut Vec<Violation>)
@@ -931,34 +982,21 @@ pub fn oracle_c08(inv : &Inv, ever_targets : &BTreeSet<String>) -> Vec<Violation
                 format!("op {}: bytes {} ({}) are nowhere at a target path or in the cache afterwards", inv.op_index, show_bytes(c), wher)));
         }
     }
-    for e in inv.res.events.iter()
-    {
-        match &e.kind
-        {
-            Ev::Fs{ op : FsOp::Rename, origin : Origin::Ruler, path, path2 : Some(to), ok : true, data, replaced : Some(old), .. } =>
-            {
-                if !in_ruler_dir(to) || in_cache(to)
-                {
-                    let same = data.as_ref().map(|d| **d == **old).unwrap_or(false);
-                    if !same
-                    {
-                        out.push(vio("C08", format!("C08:rename-overwrote:{}", if in_cache(to) { "cache-entry" } else { "workspace-file" }),
-                            format!("op {}: ruler renamed {} onto {} which held different bytes {}", inv.op_index, path, to, show_bytes(old))));
-                    }
-                }
-            },
-            Ev::Fs{ op : FsOp::CreateFile, origin : Origin::Ruler, path, ok : true, replaced : Some(old), .. } =>
-            {
-                if !in_ruler_dir(path) || in_cache(path)
-                {
-                    out.push(vio("C08", "C08:truncated-existing-file".to_string(),
-                        format!("op {}: ruler truncated {} which held {}", inv.op_index, path, show_bytes(old))));
-                }
-            },
-            _ => {},
-        }
-    }
     out
+}
+
+/* probe: ruler-origin renames / truncating creates that replaced different bytes outside its own
+   state files.  Not a violation by itself (the replaced bytes may live on elsewhere — that is
+   what the conservation check above decides); it tells how close the run came. */
+pub fn probe_c08_overwrites(inv : &Inv) -> usize
+{
+    inv.res.events.iter().filter(|e| match &e.kind
+    {
+        Ev::Fs{ op : FsOp::Rename, origin : Origin::Ruler, path2 : Some(to), ok : true, data, replaced : Some(old), .. } =>
+            (!in_ruler_dir(to) || in_cache(to)) && !data.as_ref().map(|d| **d == **old).unwrap_or(false),
+        Ev::Fs{ op : FsOp::CreateFile, origin : Origin::Ruler, path, ok : true, replaced : Some(_), .. } => !in_ruler_dir(path) || in_cache(path),
+        _ => false,
+    }).count()
 }
 
 /* C09: ruler only touches declared targets in scope and its own directory. */
@@ -1174,11 +1212,9 @@ pub fn oracle_c20(inv : &Inv) -> Vec<Violation>
         return out;
     }
     let m = match &inv.model { Ok(m) => m, Err(_) => return out };
-    let predicted = inv.predicted_errors().unwrap();
-    match inv.actual_errors()
+    if !inv.errors_as_predicted()
     {
-        Some(a) if a == predicted => {},
-        _ => return out,    // something else went wrong; C04/C05/C06 report it
+        return out;    // something else went wrong; C04/C05/C06 report it
     }
     let runs = inv.runs_per_rule();
 
@@ -1463,17 +1499,9 @@ pub fn oracle_c05(inv : &Inv) -> Vec<Violation>
         out.push(vio("C05", format!("C05:thread-panic:{}", panic_class(m)),
             format!("op {}: worker thread {} panicked: {}", inv.op_index, tid, m)));
     }
-    for e in inv.res.events.iter()
-    {
-        match &e.kind
-        {
-            Ev::Send{ chan, ok : false } => out.push(vio("C05", "C05:send-on-closed-channel".to_string(),
-                format!("op {}: thread {} sent on channel {} whose receiver is gone", inv.op_index, e.tid, chan))),
-            Ev::Recv{ chan, ok : false } => out.push(vio("C05", "C05:recv-on-closed-channel".to_string(),
-                format!("op {}: thread {} received on channel {} whose senders are gone", inv.op_index, e.tid, chan))),
-            _ => {},
-        }
-    }
+    // A send or receive that finds its channel closed is not by itself a failure of the call (an
+    // implementation may tolerate it); it is one when it surfaces — as the panic, the hang or the
+    // internal error value handled above.  The engine counts the raw events as a probe.
     out
 }
 
